@@ -10,6 +10,8 @@ import Mathlib.NumberTheory.LegendreSymbol.JacobiSymbol
 * `goJacobi_eq_jacobiSym`: the model's binary Jacobi algorithm computes Mathlib's `jacobiSym` for every odd modulus.
 * `fourthRootFact_of_blum`: `FourthRootFact` is a theorem for Blum integers and `w` with Jacobi symbol `-1`.
 * `mod_complete`: completeness without any number-theoretic assumption.
+* `modCanonRoot_pos/_lt/_two_le`, `modPow_canonRoot`: the representative `min(x, N − x)` the prover sends is in
+  `(0, N/2]` and has the same fourth power (`sub_pow_four_mod`), so the canonical-root check of the verifier passes.
 * `mod_complete_77`, `mod_complete_77'`: the hypotheses are satisfiable (`n = 7·11`). -/
 set_option autoImplicit false
 namespace TssVerif.C10L
@@ -99,10 +101,10 @@ def modExpo (p q : Nat) : Nat := ((p - 1) * (q - 1) + 4) / 8 * (((p - 1) * (q - 
 
 theorem pickJ_cons (n p q w expo y j : Nat) (js : List Nat) (v1 v2 : Int)
     (h1 : goJacobi (modCand n w y j : Nat) p = .ok v1) (h2 : goJacobi (modCand n w y j : Nat) q = .ok v2) :
-    modProve.pickJ n p q w expo y (j :: js) =
+    modProveRaw.pickJ n p q w expo y (j :: js) =
       if v1 = 1 ∧ v2 = 1 then .ok (modPow (modCand n w y j) expo n, j % 2, j / 2 % 2)
-      else modProve.pickJ n p q w expo y js := by
-  rw [modProve.pickJ]
+      else modProveRaw.pickJ n p q w expo y js := by
+  rw [modProveRaw.pickJ]
   unfold modCand at h1 h2 ⊢
   simp only at h1 h2 ⊢
   rw [h1, h2]
@@ -135,7 +137,7 @@ theorem goJacobi_zero_ne_one {m : Nat} (hm1 : m ≠ 1) : goJacobi ((0 : Nat) : I
 theorem pickJ_spec (n p q w expo y : Nat) (hp : p % 2 = 1) (hq : q % 2 = 1) (js : List Nat)
     (h : ∃ j ∈ js, goJacobi (modCand n w y j : Nat) p = .ok 1 ∧ goJacobi (modCand n w y j : Nat) q = .ok 1) :
     ∃ j ∈ js, goJacobi (modCand n w y j : Nat) p = .ok 1 ∧ goJacobi (modCand n w y j : Nat) q = .ok 1 ∧
-      modProve.pickJ n p q w expo y js = .ok (modPow (modCand n w y j) expo n, j % 2, j / 2 % 2) := by
+      modProveRaw.pickJ n p q w expo y js = .ok (modPow (modCand n w y j) expo n, j % 2, j / 2 % 2) := by
   induction js with
   | nil => obtain ⟨j, hj, _⟩ := h; cases hj
   | cons j js ih =>
@@ -158,7 +160,7 @@ theorem pickJ_spec (n p q w expo y : Nat) (hp : p % 2 = 1) (hq : q % 2 = 1) (js 
 
 /-- the prover's choice `(x, a, b)` for the challenge `y` (default where the Go code leaves `X[i]` nil) -/
 def modPick (n p q w y : Nat) : Nat × Nat × Nat :=
-  match modProve.pickJ n p q w (modExpo p q) y [0, 1, 2, 3] with
+  match modProveRaw.pickJ n p q w (modExpo p q) y [0, 1, 2, 3] with
   | .ok r => r
   | _ => (0, 0, 0)
 
@@ -226,6 +228,7 @@ theorem modVerify_nat (H : HashFn) (sess : Bytes) (n w a b : Nat) (xs zs ys : Li
     (hj : ∃ j, goJacobi (w : Int) n = .ok j ∧ j ≠ 1)
     (hw0 : 0 < w) (hwn : w < n) (hwc : Nat.Coprime w n)
     (hzs : ∀ z ∈ zs, 0 < z ∧ z < n) (hxs : ∀ x ∈ xs, 0 < x ∧ x < n)
+    (hcanon : ∀ x ∈ xs, 2 * x ≤ n)
     (ha : bitLen a = modIterations + 1) (hb : bitLen b = modIterations + 1)
     (hys : modYs H sess (w : Int) (n : Int) modIterations [] = .ok ys)
     (hcomp : isProbablyPrime n = false)
@@ -266,6 +269,14 @@ theorem modVerify_nat (H : HashFn) (sess : Bytes) (n w a b : Nat) (xs zs ys : Li
     have h1' : (0 : Int) < Int.ofNat z' := by show (0 : Int) < (z' : Int); exact_mod_cast h1
     have h2' : Int.ofNat z' < (n : Int) := by show (z' : Int) < (n : Int); exact_mod_cast h2
     rw [decide_eq_true h1', decide_eq_true h2']; rfl
+  have g7' : (cur.modCanonicalRoot && !((xs.map Int.ofNat).all fun x => decide (2 * x ≤ (n : Int)))) = false := by
+    rw [Bool.and_eq_false_iff]; right
+    rw [Bool.not_eq_false', List.all_eq_true]
+    intro z hz
+    obtain ⟨z', hz', rfl⟩ := List.mem_map.1 hz
+    have h1 := hcanon z' hz'
+    have h1' : 2 * Int.ofNat z' ≤ (n : Int) := by show 2 * (z' : Int) ≤ (n : Int); exact_mod_cast h1
+    rw [decide_eq_true h1']
   have g8 : (bitLen a != modIterations + 1) = false := by rw [ha]; exact bne_self_eq_false _
   have g9 : (bitLen b != modIterations + 1) = false := by rw [hb]; exact bne_self_eq_false _
   have g10 : ((n : Int) % 2 == 0 || isProbablyPrime n) = false := by
@@ -273,13 +284,37 @@ theorem modVerify_nat (H : HashFn) (sess : Bytes) (n w a b : Nat) (xs zs ys : Li
       rw [beq_eq_false_iff_ne]; omega
     rw [h2, hcomp]; rfl
   unfold modVerify
-  simp only [g1, Bool.false_eq_true, if_false, g2, Int.toNat_natCast, hj1, Outcome.ok_bind, g3, g4, g5, g6, g7,
+  simp only [g1, Bool.false_eq_true, if_false, g2, Int.toNat_natCast, hj1, Outcome.ok_bind, g3, g4, g5, g6, g7, g7',
     Int.natAbs_natCast, g8, g9, hys, g10]
   congr 1
   rw [List.all_eq_true]
   intro i hi
   obtain ⟨r1, r2⟩ := hrel i (List.mem_range.1 hi)
   simp only [getD_map_ofNat_toNat, r1, r2, beq_self_eq_true, Bool.and_self]
+
+/-! ### the canonical representative of `±x` -/
+
+theorem modCanonRoot_pos {n x : Nat} (hx0 : 0 < x) (hxn : x < n) : 0 < modCanonRoot n x := by
+  unfold modCanonRoot; split <;> omega
+
+theorem modCanonRoot_lt {n x : Nat} (hxn : x < n) : modCanonRoot n x < n := by
+  unfold modCanonRoot; split <;> omega
+
+theorem modCanonRoot_two_le {n x : Nat} (hxn : x < n) : 2 * modCanonRoot n x ≤ n := by
+  unfold modCanonRoot; split <;> omega
+
+/-- `(n − x)^4 ≡ x^4 (mod n)` -/
+theorem sub_pow_four_mod {n x : Nat} (hxn : x ≤ n) : (n - x) ^ 4 % n = x ^ 4 % n := by
+  show (n - x) ^ 4 ≡ x ^ 4 [MOD n]
+  rw [← ZMod.natCast_eq_natCast_iff]
+  push_cast [Nat.cast_sub hxn]
+  rw [ZMod.natCast_self, zero_sub, Even.neg_pow (by decide)]
+
+theorem modPow_canonRoot {n x : Nat} (hxn : x ≤ n) : modPow (modCanonRoot n x) 4 n = modPow x 4 n := by
+  unfold modCanonRoot
+  split
+  · rw [modPow_spec, modPow_spec, sub_pow_four_mod hxn]
+  · rfl
 
 /-! ### facts about the candidates -/
 
@@ -312,7 +347,7 @@ theorem modCand_bits (n w y j : Nat) :
 /-- under `FourthRootFact` the candidate search succeeds and returns a non-zero fourth root -/
 theorem modPick_spec {n p q w y : Nat} (hp2 : p % 2 = 1) (hq2 : q % 2 = 1) (hp1 : p ≠ 1)
     (hroot : FourthRootFact n p q w) (hy : y < n) (hyc : Nat.Coprime y n) :
-    ∃ j, j < 4 ∧ modProve.pickJ n p q w (modExpo p q) y [0, 1, 2, 3] = .ok (modPick n p q w y) ∧
+    ∃ j, j < 4 ∧ modProveRaw.pickJ n p q w (modExpo p q) y [0, 1, 2, 3] = .ok (modPick n p q w y) ∧
       (modPick n p q w y).2 = (j % 2, j / 2 % 2) ∧
       modPow (modPick n p q w y).1 4 n = modCand n w y j ∧
       0 < (modPick n p q w y).1 ∧ (modPick n p q w y).1 < n := by
@@ -409,20 +444,20 @@ theorem mod_complete_partial (H : HashFn) (sess : Bytes) (n p q w : Nat)
     (by rw [Int.gcd_natCast_natCast]; exact hcop)
   have hinvspec := (modInverse_spec_nat hinv).1
   -- the candidate search
-  have hmapM : ys.mapM (fun y => modProve.pickJ n p q w (modExpo p q) y [0, 1, 2, 3]) =
+  have hmapM : ys.mapM (fun y => modProveRaw.pickJ n p q w (modExpo p q) y [0, 1, 2, 3]) =
       .ok (ys.map (modPick n p q w)) :=
     mapM_ok_of _ _ ys fun y hy =>
       (modPick_spec hp2 hq2 hp.one_lt.ne' hroot (hylt y hy) (hyc y hy)).choose_spec.2.1
   unfold modExpo at hmapM
   -- run the prover
-  have hprove : modProve H sess n p q w = .ok (w, (ys.map (modPick n p q w)).map (·.1),
+  have hprove : modProve H sess n p q w = .ok (w, ((ys.map (modPick n p q w)).map (·.1)).map (modCanonRoot n),
       (List.range modIterations).foldl
         (fun acc i => acc + ((ys.map (modPick n p q w)).getD i (0, 0, 0)).2.1 * 2 ^ i) (2 ^ modIterations),
       (List.range modIterations).foldl
         (fun acc i => acc + ((ys.map (modPick n p q w)).getD i (0, 0, 0)).2.2 * 2 ^ i) (2 ^ modIterations),
       ys.map fun y => modPow y invN n) := by
-    unfold modProve
-    simp only [hys, Outcome.ok_bind, hinv, nilPanic, Outcome.ofOption, hmapM]
+    unfold modProve modProveCfg modProveRaw
+    simp only [hys, Outcome.ok_bind, hinv, nilPanic, Outcome.ofOption, hmapM, cur, if_true]
   rw [hprove, Outcome.ok_bind]
   -- per-index facts
   have hidx : ∀ i, i < modIterations → ∃ (hi : i < ys.length) (j : Nat), j < 4 ∧
@@ -447,7 +482,13 @@ theorem mod_complete_partial (H : HashFn) (sess : Bytes) (n p q w : Nat)
     obtain ⟨_, j, _, _, e, e2, _⟩ := hidx i hi
     show ((ys.map (modPick n p q w)).getD i (0, 0, 0)).2.2 ≤ 1
     rw [e, e2]; show j / 2 % 2 ≤ 1; omega)
-  refine modVerify_nat H sess n w _ _ _ _ ys hn2 hj hw0 hwn hwc ?_ ?_ hA.1 hB.1 hys hcomp ?_
+  have hxlt : ∀ x ∈ (ys.map (modPick n p q w)).map (·.1), 0 < x ∧ x < n := by
+    intro x hx
+    obtain ⟨t, ht, rfl⟩ := List.mem_map.1 hx
+    obtain ⟨y, hy, rfl⟩ := List.mem_map.1 ht
+    obtain ⟨j, -, -, -, -, h5, h6⟩ := modPick_spec hp2 hq2 hp.one_lt.ne' hroot (hylt y hy) (hyc y hy)
+    exact ⟨h5, h6⟩
+  refine modVerify_nat H sess n w _ _ _ _ ys hn2 hj hw0 hwn hwc ?_ ?_ ?_ hA.1 hB.1 hys hcomp ?_
   · -- `0 < z < n`
     intro z hz
     obtain ⟨y, hy, rfl⟩ := List.mem_map.1 hz
@@ -459,10 +500,13 @@ theorem mod_complete_partial (H : HashFn) (sess : Bytes) (n p q w : Nat)
     omega
   · -- `0 < x < n`
     intro x hx
-    obtain ⟨t, ht, rfl⟩ := List.mem_map.1 hx
-    obtain ⟨y, hy, rfl⟩ := List.mem_map.1 ht
-    obtain ⟨j, -, -, -, -, h5, h6⟩ := modPick_spec hp2 hq2 hp.one_lt.ne' hroot (hylt y hy) (hyc y hy)
-    exact ⟨h5, h6⟩
+    obtain ⟨x0, hx0, rfl⟩ := List.mem_map.1 hx
+    obtain ⟨h5, h6⟩ := hxlt x0 hx0
+    exact ⟨modCanonRoot_pos h5 h6, modCanonRoot_lt h6⟩
+  · -- `2·x ≤ n`
+    intro x hx
+    obtain ⟨x0, hx0, rfl⟩ := List.mem_map.1 hx
+    exact modCanonRoot_two_le (hxlt x0 hx0).2
   · intro i hi
     obtain ⟨hi', j, hj4, e0, e1, e2, e3⟩ := hidx i hi
     have hmem : ys[i] ∈ ys := List.getElem_mem hi'
@@ -470,7 +514,8 @@ theorem mod_complete_partial (H : HashFn) (sess : Bytes) (n p q w : Nat)
     · rw [e0, mod_getD_of_lt _ _ (by rw [List.length_map]; exact hi'), List.getElem_map]
       exact nth_root_spec hphi htot hinvspec (hyc _ hmem) (hylt _ hmem)
     · rw [hA.2 i hi, hB.2 i hi, e0]
-      rw [mod_getD_of_lt _ _ (by rw [List.length_map, List.length_map]; exact hi'), List.getElem_map,
+      rw [mod_getD_of_lt _ _ (by rw [List.length_map, List.length_map, List.length_map]; exact hi'),
+        List.getElem_map, modPow_canonRoot (le_of_lt (hxlt _ (List.getElem_mem _)).2), List.getElem_map,
         List.getElem_map]
       simp only [e1, e2]
       rw [e3]
